@@ -17,7 +17,7 @@ import ast
 import re
 from typing import Dict, List, Optional, Set, Tuple
 
-from sa import orderlint, sqlx, transp
+from sa import orderlint, registryx, sqlx, transp
 from sa.cfg import CFG, describe_path
 from sa.checks.c15 import report_issues
 from sa.core import AnalysisError, Finding, Program, Report, program, src, walk_no_nested
@@ -337,11 +337,12 @@ def _union_dedup(P: Program, rep: Report) -> None:
     from sa.e6 import Interp, Raised, Unmodelled
     f = P.func(f"{sm.TRQ}._visit_set_operation")
     M = sm.Model(P)
+    REG = registryx.extract(P)  # registry.sql is answered from the repository's own registrations (templates and generators lowered)
     ds = M.ds("D1", ["A", "B"], ["M"])
     kids = [sm.MNode("VarID", value=f"D{k}") for k in (1, 2, 3)]
     node = sm.MNode("MulOp", op="union", children=kids)
     ext = {"self.visit": lambda c: f'SELECT * FROM "{c.value}"', "self._get_dataset_structure": lambda c: ds, "self._get_output_dataset": lambda: None,
-           "quote_name": lambda n: f'"{n}"', "registry.sql": lambda op, *a: " UNION ALL ".join(f"({x})" for x in a), "hasattr": lambda o, n: hasattr(o, n),
+           "quote_name": lambda n: f'"{n}"', "registry.sql": lambda op, *a: registryx.registry_sql(REG, op, *a), "hasattr": lambda o, n: hasattr(o, n),
            "self._join_on_clause": lambda ids, a, b: " AND ".join(f'{a}."{i}" = {b}."{i}"' for i in ids)}
     try:
         txt = str(Interp(P, externals=ext).call(f, {"self": sm.MTranspiler(), "node": node, "op": "union"}))
@@ -388,12 +389,13 @@ def _intersect_every(P: Program, rep: Report) -> None:
     from sa.e6 import Interp, Raised, Unmodelled
     f = P.func(f"{sm.TRQ}._visit_set_operation")
     M = sm.Model(P)
+    REG = registryx.extract(P)
     ds = M.ds("D1", ["A", "B"], ["M"])
 
     def run_op(op: str, n: int) -> str:
         kids = [sm.MNode("VarID", value=f"D{k}") for k in range(1, n + 1)]
         ext = {"self.visit": lambda c: f'SELECT * FROM "{c.value}"', "self._get_dataset_structure": lambda c: ds, "self._get_output_dataset": lambda: None,
-               "quote_name": lambda x: f'"{x}"', "registry.sql": lambda o, *a: " UNION ALL ".join(f"({x})" for x in a), "hasattr": lambda o, x: hasattr(o, x),
+               "quote_name": lambda x: f'"{x}"', "registry.sql": lambda o, *a: registryx.registry_sql(REG, o, *a), "hasattr": lambda o, x: hasattr(o, x),
                "self._join_on_clause": lambda ids, a, b: "⟦ON " + ",".join(ids) + "⟧", "CTEBuilder": lambda: None}
         try:
             return " ".join(str(Interp(P, externals=ext).call(f, {"self": sm.MTranspiler(), "node": sm.MNode("MulOp", op=op, children=kids), "op": op})).split())
